@@ -361,8 +361,25 @@ def judge(ctx, s, ops, variant=(1, 1, 1)):
         return
     # truth of the edge centres the source does not supply: arc midpoints of the grid's own edges
     truth = dict(s.truth)
-    if "edge" not in truth:
-        truth["edge"] = np.array([unit(s.centroid(e)) for e in edges]).reshape(-1, 3)
+    # The truth of every centre the source does NOT supply is the property's own definition — the
+    # normalised Cartesian mean of the element's own real corners (padding excluded; an edge centre is
+    # the normalised mean of its two ends) — evaluated BY LEAN (`faceCentroid` / `edgeCentroid`, the
+    # functions of centroid_row_local / centroid_orphans_irrelevant) from the true node positions
+    # and the connectivity; independent of the implementation and of the node/face numbering.
+    tn = truth["node"]
+    cl = common.Tok(d.ask("C04.centres", enc_cols([tn[:, 0], tn[:, 1], tn[:, 2]]), enc_conn(s.faces, edges)))
+    lean_face = np.stack([np.array(cl.floats()) for _ in range(3)], axis=1).reshape(-1, 3)
+    lean_edge = np.stack([np.array(cl.floats()) for _ in range(3)], axis=1).reshape(-1, 3)
+    py_face = np.array([unit(s.centroid(f)) for f in s.faces]).reshape(-1, 3)
+    py_edge = np.array([unit(s.centroid(e)) for e in edges]).reshape(-1, 3)
+    if np.abs(lean_face - py_face).max(initial=0) > 1e-13 or np.abs(lean_edge - py_edge).max(initial=0) > 1e-13:
+        raise RuntimeError("oracle disagreement: Lean corner means differ from the generator's")
+    if s.ll["face"] is None and s.xyz["face"] is None:
+        truth["face"] = lean_face
+        ctx.hit("face:truth=lean-corner-mean")
+    if s.ll["edge"] is None and s.xyz["edge"] is None:
+        truth["edge"] = lean_edge
+        ctx.hit("edge:truth=lean-corner-mean")
     for k in KINDS:
         if near_cap_boundary(truth[k]):
             ctx.hit("dropped:cap-boundary")
@@ -479,6 +496,73 @@ def judge_file(ctx, fmt, rel, ops):
 # generators
 # --------------------------------------------------------------------------------------
 
+def vary_numbering(rng, faces, xyz, ll=None):
+    """Element numbering and coverage as a random dimension of every source: a node shared under two
+    ids (duplicate coordinates), node order (kept / descending / shuffled), face order (biggest face
+    first / last / in the middle), nodes that no face uses numbered first / in the middle / LAST.
+    Returns (faces, xyz, ll, tags); positions are untouched."""
+    faces = [list(f) for f in faces]
+    xyz = np.asarray(xyz, float).copy()
+    ll = None if ll is None else (np.asarray(ll[0], float).copy(), np.asarray(ll[1], float).copy())
+    tags = []
+
+    def take(idx):
+        nonlocal xyz, ll
+        xyz = xyz[idx]
+        if ll is not None:
+            ll = (ll[0][idx], ll[1][idx])
+
+    # duplicate coordinates under a different id
+    if rng.random() < 0.25:
+        fi = rng.randrange(len(faces))
+        j = rng.randrange(len(faces[fi]))
+        v = faces[fi][j]
+        take(list(range(len(xyz))) + [v])
+        faces[fi][j] = len(xyz) - 1
+        tags.append("dup-coords")
+    # node order
+    r = rng.random()
+    n = len(xyz)
+    if r < 0.25:
+        new_of_old = [n - 1 - i for i in range(n)]
+        tags.append("nodes-descending")
+    elif r < 0.5:
+        new_of_old = list(range(n))
+        rng.shuffle(new_of_old)
+        tags.append("nodes-shuffled")
+    else:
+        new_of_old = list(range(n))
+    old_of_new = [0] * n
+    for o, nw in enumerate(new_of_old):
+        old_of_new[nw] = o
+    take(old_of_new)
+    faces = [[new_of_old[v] for v in f] for f in faces]
+    # face order
+    r = rng.random()
+    if r < 0.6 and len({len(f) for f in faces}) > 1:
+        big = max(range(len(faces)), key=lambda i: len(faces[i]))
+        rest = [f for i, f in enumerate(faces) if i != big]
+        where = rng.choice(["first", "last", "middle"])
+        pos = {"first": 0, "last": len(rest), "middle": len(rest) // 2}[where]
+        faces = rest[:pos] + [faces[big]] + rest[pos:]
+        tags.append("biggest-face-" + where)
+    # nodes used by no face
+    r = rng.random()
+    if r < 0.6:
+        where = rng.choice(["start", "middle", "end"])
+        k = rng.randint(1, 3)
+        n = len(xyz)
+        pos = {"start": 0, "middle": max(1, n // 2), "end": n}[where]
+        elon = np.array([rng.uniform(-170, 170) for _ in range(k)])
+        elat = np.array([rng.uniform(-80, 80) for _ in range(k)])
+        xyz = np.vstack([xyz[:pos], xyz_of(elon, elat), xyz[pos:]])
+        if ll is not None:
+            ll = (np.concatenate([ll[0][:pos], elon, ll[0][pos:]]), np.concatenate([ll[1][:pos], elat, ll[1][pos:]]))
+        faces = [[v if v < pos else v + k for v in f] for f in faces]
+        tags.append("orphans@" + where)
+    return faces, xyz, ll, tags
+
+
 NODE_PROV = ["ll", "xyz", "both"]
 CENTRE_PROV = ["none", "ll", "xyz", "both"]
 
@@ -539,6 +623,11 @@ def special_sources():
         if sgn < 0:
             fs = [f[::-1] for f in fs]
         out.append((name, ll, fs))
+    # mixed face sizes (padding) with a node that no face uses numbered LAST / FIRST
+    out.append(("mixed-orphan-last", [(0.0, 0.0), (10.0, 0.0), (10.0, 10.0), (0.0, 10.0), (20.0, 5.0), (-50.0, 30.0)],
+                [[0, 1, 2, 3], [1, 4, 2]]))
+    out.append(("mixed-orphan-first", [(-50.0, 30.0), (0.0, 0.0), (10.0, 0.0), (10.0, 10.0), (0.0, 10.0), (20.0, 5.0)],
+                [[2, 5, 3], [1, 2, 3, 4]]))
     # a single triangle west of Greenwich (smallest witness material)
     out.append(("triangle-west", [(-100.0, 10.0), (-80.0, 10.0), (-90.0, 25.0)], [[0, 1, 2]]))
     out.append(("triangle-east", [(100.0, -10.0), (120.0, -10.0), (110.0, 5.0)], [[0, 1, 2]]))
@@ -547,7 +636,9 @@ def special_sources():
 
 def run(ctx):
     rng = ctx.rng
-    ctx.rule = ("sources = abstract meshes (harness/meshes.zoo + explicit lon/lat lists with poles, ±180, 0, snap-cap nodes) "
+    ctx.rule = ("sources = abstract meshes (harness/meshes.zoo + explicit lon/lat lists with poles, ±180, 0, snap-cap nodes, mixed face "
+                "sizes with an unused node numbered last / first) × numbering and coverage (unused nodes first / middle / last, node "
+                "ids kept / descending / shuffled, biggest face first / middle / last, one position under two ids) "
                 "× provenance (node: lon/lat | xyz | both; edge, face: none | lon/lat | xyz | both; radii 1, 0.5, 2, 6371229; "
                 "supplied centres are perturbed off the centroid) × longitude convention per variable (±180 | 0..360) × "
                 "history (a permutation of the six getters, optional normalize_cartesian_coordinates(), two re-reads; "
@@ -586,10 +677,17 @@ def run(ctx):
         lat = np.array([p[1] for p in ll])
         truth = xyz_of(lon, lat)
         for combo in all_combos(rng):
-            s = make_source(rng, faces, truth, name, combo, node_ll=(lon, lat))
+            if rng.random() < 0.5:
+                f2, t2, ll2, tags = vary_numbering(rng, faces, truth, (lon, lat))
+                s = make_source(rng, f2, t2, name + "".join("+" + t for t in tags), combo, node_ll=ll2)
+            else:
+                tags = []
+                s = make_source(rng, faces, truth, name, combo, node_ll=(lon, lat))
             if degenerate(s):
                 ctx.hit("skipped-degenerate")
                 continue
+            for t in tags:
+                ctx.hit("numbering:" + t)
             for _ in range(ctx.n(1, 3)):
                 judge(ctx, s, history(rng))
 
@@ -597,10 +695,15 @@ def run(ctx):
     for rep in range(ctx.n(1, 3)):
         for m in meshes.zoo(rng, big=False):
             for _ in range(ctx.n(4, 8)):
-                s = make_source(rng, m.faces, m.xyz, m.kind, random_combo(rng))
+                f2, t2, _, tags = vary_numbering(rng, m.faces, m.xyz)
+                s = make_source(rng, f2, t2, m.kind + "".join("+" + t for t in tags), random_combo(rng))
                 if degenerate(s):
                     ctx.hit("skipped-degenerate")
                     continue
+                for t in tags:
+                    ctx.hit("numbering:" + t)
+                if len({len(f) for f in f2}) > 1:
+                    ctx.hit("numbering:mixed-face-sizes")
                 judge(ctx, s, history(rng))
 
     # 2b. sample files through the real readers (float64 sources only)
